@@ -13,7 +13,7 @@ one is touched - the evaluation order of closure side effects is that of the rea
 from . import sym as S
 from .values import (Unsupported, UNDEF, UNIT, EnumV, RefV, VecV, merge, veq, none, some, option, enum_const)
 
-ADAPTORS = 'Map|Filter|FilterMap|Inspect|Enumerate|Zip|Chain|Cloned|Copied|Take|Skip|Rev|Iter|IntoIter|Drain|IntoValues|I|Peekable'
+ADAPTORS = 'Map|Filter|FilterMap|Inspect|Enumerate|Zip|Chain|Cloned|Copied|Take|Skip|Rev|Iter|IntoIter|Drain|IntoValues|I|FromFn|TakeWhile|SkipWhile|Once|Empty'
 SOURCES = 'Iter|IntoIter|Drain|IntoValues'
 
 
@@ -50,7 +50,7 @@ def _is_iter(v):
     return isinstance(v, tuple) and len(v) > 0 and isinstance(v[0], str) and v[0].endswith('iter')
 
 
-def _src_len(it):
+def _src_len_unused(it):
     """number of source positions an iterator can yield from (python int upper bound)"""
     k = it[0]
     if k == 'veciter':
@@ -151,6 +151,47 @@ def items(cx, it, stop=None):
             raise Unsupported('zip of filtered iterators')
         for (g1, e1), (g2, e2) in zip(ga, gb):
             yield S.And(g1, g2), (e1, e2)
+    elif k == 'fromfniter':
+        # std::iter::from_fn(f): f is called until it returns None - a loop in disguise, unrolled up to the bound
+        bound = it[2]
+        going = S.TRUE
+        for _ in range(bound):
+            g = live_guard(going)
+            if g is S.FALSE:
+                break
+            r = cx.call(it[1], [], g)
+            if r is None:
+                going = S.FALSE
+                break
+            p = r.payloads.get(1, UNDEF)
+            has = S.And(g, S.Eq(r.tag, b64(1)))
+            if p is not UNDEF and has is not S.FALSE:
+                yield has, p[0]
+            going = has
+        g = live_guard(going)
+        if g is not S.FALSE:
+            gg = S.And(cx.pc, cx.live, g)
+            if gg is not S.FALSE:
+                cx.ex.unwinds.append((gg, 'iter::from_fn', -1))
+            cx.live = S.And(cx.live, S.Not(g))
+    elif k == 'takewhileiter':
+        going = S.TRUE
+        for g, e in items(cx, it[1], stop):
+            g = live_guard(S.And(g, going))
+            r = cx.call(it[2], [cx.ref(e)], g)
+            if r is None:
+                continue
+            yield S.And(g, r), e
+            going = S.And(going, S.Or(S.Not(g), r))
+    elif k == 'skipwhileiter':
+        skipping = S.TRUE
+        for g, e in items(cx, it[1], stop):
+            g = live_guard(g)
+            r = cx.call(it[2], [cx.ref(e)], S.And(g, skipping))
+            if r is None:
+                r = S.FALSE
+            skipping = S.And(skipping, S.Or(S.Not(g), r))
+            yield S.And(g, S.Not(skipping)), e
     elif k == 'reviter':
         inner = it[1]
         if inner[0] != 'veciter' or not (S.is_const(inner[2]) and S.cval(inner[2]) == 0):
@@ -175,7 +216,9 @@ def _prefix(it):
     k = it[0]
     if k == 'veciter':
         return S.is_const(it[2])
-    if k in ('mapiter', 'inspectiter', 'derefiter', 'enumiter', 'takeiter', 'reviter'):
+    if k == 'fromfniter':
+        return True
+    if k in ('mapiter', 'inspectiter', 'derefiter', 'enumiter', 'takeiter', 'reviter', 'takewhileiter'):
         return _prefix(it[1])
     if k == 'zipiter':
         return _prefix(it[1]) and _prefix(it[2])
@@ -220,6 +263,9 @@ def register(M):
             return v
         if isinstance(v, VecV):
             return ('veciter', v, b64(0), 'val')
+        if isinstance(v, tuple) and not (v and isinstance(v[0], str)):
+            # a fixed-size array
+            return ('veciter', VecV(v, b64(len(v))), b64(0), 'val')
         if isinstance(v, EnumV):
             # Option as an iterator of zero or one elements
             p = v.payloads.get(1, UNDEF)
@@ -254,6 +300,14 @@ def register(M):
     R(keys('enumerate'), adaptor('enumiter', 0))
     R(keys('cloned') + '|' + keys('copied'), adaptor('derefiter', 0))
     R(keys('skip'), adaptor('skipiter', 1))
+    R(keys('take_while'), adaptor('takewhileiter', 1))
+    R(keys('skip_while'), adaptor('skipwhileiter', 1))
+    R('iter::from_fn|sources::from_fn|from_fn::from_fn', lambda ex, fr, c, a, st, pc:
+      (('fromfniter', a[0], ex.loop_bound(fr.fn, None)), S.TRUE))
+    R('iter::once|sources::once|once::once', lambda ex, fr, c, a, st, pc:
+      (('veciter', VecV((a[0],), b64(1)), b64(0), 'val'), S.TRUE))
+    R('iter::empty|sources::empty|empty::empty', lambda ex, fr, c, a, st, pc:
+      (('veciter', VecV((), b64(0)), b64(0), 'val'), S.TRUE))
     R(keys('rev'), adaptor('reviter', 0))
     R(keys('by_ref'), lambda ex, fr, c, a, st, pc: (_unsupported('Iterator::by_ref'), S.TRUE))
 
@@ -467,7 +521,7 @@ def register(M):
         M.wr(cx.st, a[0], ('veciter', vec, b64(0), 'val'))
         r = M.iter_next(ex, fr, c, a, cx.st, pc)
         return r[0], r[1], S.And(cx.live, r[2])
-    R(keys('next', 'Map|Filter|FilterMap|Inspect|Enumerate|Zip|Chain|Cloned|Copied|Skip|Rev|I|IntoValues'), nxt)
+    R(keys('next', 'Map|Filter|FilterMap|Inspect|Enumerate|Zip|Chain|Cloned|Copied|Skip|Rev|I|IntoValues|FromFn|TakeWhile|SkipWhile|Once|Empty'), nxt)
 
     # ------------------------------------------------------------ Vec / slice helpers
     def vec_iter_ref(ex, fr, c, a, st, pc):
@@ -670,6 +724,8 @@ def register(M):
 
     def opt_simple(kind):
         def f(ex, fr, c, a, st, pc):
+            if kind == 'then_some':
+                return option(a[0], a[1]), S.TRUE
             o = a[0]
             if isinstance(o, RefV):
                 o = deep(st, o)
@@ -779,6 +835,47 @@ def register(M):
         return f
     R('num::overflowing_add', ovf_arith('add'))
     R('num::overflowing_sub', ovf_arith('sub'))
+
+    def fn_call(ex, fr, c, a, st, pc):
+        args = a[1]
+        if not isinstance(args, tuple):
+            raise Unsupported('Fn::call argument pack %r' % (args,))
+        cl = a[0]
+        while isinstance(cl, RefV):
+            cl = st.mem.get(cl.root, UNDEF) if not cl.path else rd(st, cl)
+        if cl is UNDEF:
+            # a closure without captures is zero-sized: MIR never assigns the variable that holds it
+            import re
+            m = re.match(r'^<(?:&mut |&)?(\{closure@[^}]*\}) as', c.strip())
+            if not m:
+                raise Unsupported('call of an undefined callable in %s' % c)
+            cl = ('closure', m.group(1))
+        return ex.call_closure(cl, list(args), st, pc)
+    R('<closure as Fn>::call|<closure as FnMut>::call_mut|<closure as FnOnce>::call_once|'
+      '<&closure as Fn>::call|<&closure as FnMut>::call_mut|<&closure as FnOnce>::call_once|'
+      '<&mut closure as FnMut>::call_mut|<&mut closure as FnOnce>::call_once|'
+      '<F as Fn>::call|<F as FnMut>::call_mut|<F as FnOnce>::call_once|<impl Fn as Fn>::call|<impl FnMut as FnMut>::call_mut|'
+      '<impl FnOnce as FnOnce>::call_once|<&F as Fn>::call|<&mut F as FnMut>::call_mut', fn_call)
+
+    R('NonZero::new', lambda ex, fr, c, a, st, pc: (option(S.Not(S.Eq(a[0], S.bv(0, a[0].sort))), a[0]), S.TRUE))
+    R('NonZero::get', lambda ex, fr, c, a, st, pc: (a[0], S.TRUE))
+
+    def arc_default(ex, fr, c, a, st, pc):
+        import re
+        m = re.match(r'^<(?:std::sync::|alloc::sync::)?(?:Arc|Box)<(.*)> as (?:std::default::)?Default>::default$', c.strip())
+        if not m:
+            raise Unsupported('Default of %s' % c)
+        inner = m.group(1)
+        fn = ex.resolve('<%s as Default>::default' % inner) or ex.resolve('<%s as std::default::Default>::default' % inner)
+        if fn is None:
+            raise Unsupported('no Default impl in the crate for %s' % inner)
+        return ex.call_fn(fn, [], st, pc)
+    R('<Arc as Default>::default|<Box as Default>::default', arc_default)
+    R('<Vec as Default>::default', lambda ex, fr, c, a, st, pc: (VecV((), b64(0)), S.TRUE))
+    for t, w in (('u8', 8), ('u16', 16), ('u32', 32), ('u64', 64), ('usize', 64), ('u128', 128)):
+        R('<%s as Default>::default' % t, (lambda w: lambda ex, fr, c, a, st, pc: (S.bv(0, w), S.TRUE))(w))
+    R('<bool as Default>::default', lambda ex, fr, c, a, st, pc: (S.FALSE, S.TRUE))
+    R('<Option as Default>::default', lambda ex, fr, c, a, st, pc: (none(), S.TRUE))
 
     R('mem::take', lambda ex, fr, c, a, st, pc: _mem_take(M, st, a, c))
     R('mem::replace', lambda ex, fr, c, a, st, pc: _mem_replace(M, st, a))
